@@ -113,7 +113,7 @@ def setFloatOp (env : Array Dec) (toks : List String) : Step :=
       -- ⌈fprec × log10 2⌉ with the float64 constant log10_2 = 0x3FD34413509F79FF
       let l102 : Rat := (0x134413509F79FF : Nat) / (2 ^ 54 : Nat)
       let p := if z.prec == 0 then ((fprec : Rat) * l102).ceil.toNat else z.prec
-      let q : Rat := (M : Rat) * Spec.pow2Rat e2
+      let q : Rat := if e2 < -1000000 then 0 else (M : Rat) * Spec.pow2Rat e2
       let sp : Outcome → String → Array Dec → Option String := fun o _ genv =>
         if o != .ok then some "unexpected panic" else
         match genv[zi]? with
@@ -124,13 +124,23 @@ def setFloatOp (env : Array Dec) (toks : List String) : Step :=
           if g.neg != neg then some "sign" else
           if M == 0 then (if g.form == .zero then none else some "±0 not preserved")
           else if g.form != .finite then some "finite value became zero/Inf"
+          else if e2 < -1000000 then
+            -- extreme binary exponents: the same 64-ulp bound by integer cross-multiplication
+            -- (|gm·10^ge − M·2^e2| ≤ 65·10^(g.exp−p), scaled by 2^|e2|·10^|ge|; no rational of 2^31 bits is normalised)
+            let ge : Int := g.exp - (g.len * DW : Nat)
+            if ge ≥ 0 || (g.len * DW : Nat) < p then some "unexpected exponent for a tiny binary value" else
+            let a : Nat := g.mant <<< e2.natAbs
+            let b : Nat := M * 10 ^ ge.natAbs
+            let d := if a ≥ b then a - b else b - a
+            if d ≤ (65 * 10 ^ (g.len * DW - p)) <<< e2.natAbs then none
+            else some s!"more than 64 units in the last place from the exact value (extreme exponent): {stateToString g}"
           else
             let correct := Spec.round z.mode p neg q 0
             if correct.acc == 0 then (if Spec.agreesValue g correct then none else some s!"binary value representable in {p} digits but not stored exactly: {stateToString g}")
             else if ulpDist g q p ≤ 64 then none
             else some s!"more than 64 units in the last place from the exact value: {stateToString g}"
       { env := env, skipVars := [zi], spec := andSpec sp (andSpec (frameOk env [zi]) canonicalAll),
-        tags := ["setfloat"] ++ (if z.prec == 0 then ["prec0"] else []) }
+        tags := ["setfloat"] ++ (if z.prec == 0 then ["prec0"] else []) ++ (if e2 < -1000000 then ["min-exponent"] else []) }
     | _, _, _, _ => badStep env "setfloat")
   | [zs, _fp, sg, "inf"] =>
     (match getVar env zs with
